@@ -1,4 +1,6 @@
-import Litep2pVerif.Proofs.ReqResp.Final
+import Litep2pVerif.Proofs.ReqResp.Env
+import Litep2pVerif.Proofs.ReqResp.Handle
+import Litep2pVerif.Generated.Consts
 /-!
 # C13 — Every request gets exactly one terminal outcome with the matching payload
 
@@ -10,6 +12,13 @@ cancel channel fired, a response only if the responder wrote it on that substrea
 Ghost history components of the state: `issued` (requests handed to the protocol), `opened`
 (substream id ↦ request, one entry per successful `open_substream`), `sentOn` (substreams on which a
 request future was started), `written` (the payload that future writes), `wire` (what the responder wrote on a substream), `log` (events).
+
+`ReachE m e` (`Model/ReqResp/Env.lean`): the same step relation with an observer of what the transport
+manager owes: `e.dialsOwed` lists the peers for which the protocol's `dial` call was answered `Ok` and
+to which neither `ConnectionEstablished` nor `DialFailure` has been delivered since. The answer of
+every `dial` call is an arbitrary input (`Ok`, `AlreadyConnected`, `TriedToDialSelf`,
+`NoAddressAvailable`, `ChannelClogged`, `TaskClosed`), independent of what the protocol has been told
+about the peer. `Model/ReqResp/Handle.lean` is the user-facing `RequestResponseHandle`.
 -/
 namespace Litep2pVerif.Props.C13
 open Litep2pVerif Litep2pVerif.ReqResp
@@ -102,25 +111,81 @@ example :
     s.pendingOutbound = [(1, ⟨1, 1, ⟨⟨4, 1⟩, none⟩⟩)] ∧ s.pendingInbound = [⟨1, 0, 0⟩] := by decide
 
 /-- **Exactly one at quiescence.** In every reachable state in which the environment owes nothing
-(`Quiescent`: no pending dial, no pending substream open, no request future), every issued request
-has exactly one terminal event, unless a cancel took effect for it (the cancel channel fired,
-`cancelSent`), in which case it has either exactly one terminal event or none and was finished by
-the cancel. In particular every request whose cancel channel never fired has exactly one. -/
-theorem exactly_one_at_quiescence (m : Option Nat) (s : State) (h : Reach m s) (hq : Quiescent s)
-    (r : Rid) (hi : issuedCount s r = 1) :
-    ((terminals s.log r = 1 ∧ s.cancelDone.count r = 0) ∨
-     (terminals s.log r = 0 ∧ s.cancelDone.count r = 1 ∧ r ∈ s.cancelSent)) ∧
-    (r ∉ s.cancelSent → terminals s.log r = 1) :=
-  reach_exactly_one m s h hq r hi
+(`EnvQuiescent`: the transport manager has no accepted dial to conclude, no substream open is waited
+for, no request future is running — stated over the manager's obligations, not over the protocol's
+`pending_dials`), every issued request has exactly one terminal event, unless a cancel took effect
+for it (the cancel channel fired, `cancelSent`), in which case it has either exactly one terminal
+event or none and was finished by the cancel. In particular every request whose cancel channel never
+fired has exactly one. This covers the window in which the manager still answers `AlreadyConnected`
+for a peer the protocol has dropped (or never registered): whatever `dial` answers, a request is
+never left parked without a dial being owed. -/
+theorem exactly_one_at_quiescence (m : Option Nat) (e : EnvState) (h : ReachE m e) (hq : EnvQuiescent e)
+    (r : Rid) (hi : issuedCount e.s r = 1) :
+    ((terminals e.s.log r = 1 ∧ e.s.cancelDone.count r = 0) ∨
+     (terminals e.s.log r = 0 ∧ e.s.cancelDone.count r = 1 ∧ r ∈ e.s.cancelSent)) ∧
+    (r ∉ e.s.cancelSent → terminals e.s.log r = 1) :=
+  reachE_exactly_one m e h hq r hi
 
 /-- Non-vacuity: a quiescent state with one failed and one silently cancelled request. -/
 example :
-    let s := [Input.connectionEstablished 1 (fun _ => .error .closed), .send 1 ⟨⟨3, 0⟩, none⟩ .reject (.ok ()) (.ok 0),
+    let e := [Input.connectionEstablished 1 (fun _ => .error .closed), .send 1 ⟨⟨3, 0⟩, none⟩ .reject (.ok ()) (.ok 0),
       .send 2 ⟨⟨3, 1⟩, none⟩ .reject (.ok ()) (.ok 1), .outboundSubstream 1 0 none, .cancel 0,
-      .futureDone ⟨1, 0, 0⟩ (.error .canceled)].foldl step (init none)
-    s.pendingDials = [] ∧ s.pendingOutbound = [] ∧ s.pendingInbound = [] ∧
-    issuedCount s 0 = 1 ∧ issuedCount s 1 = 1 ∧
-    terminals s.log 0 = 0 ∧ s.cancelDone = [0] ∧ s.cancelSent = [0] ∧ terminals s.log 1 = 1 := by decide
+      .futureDone ⟨1, 0, 0⟩ (.error .canceled)].foldl stepE (initE none)
+    e.dialsOwed = [] ∧ e.s.pendingOutbound = [] ∧ e.s.pendingInbound = [] ∧
+    issuedCount e.s 0 = 1 ∧ issuedCount e.s 1 = 1 ∧
+    terminals e.s.log 0 = 0 ∧ e.s.cancelDone = [0] ∧ e.s.cancelSent = [0] ∧ terminals e.s.log 1 = 1 := by decide
+
+/-- Non-vacuity (the window): the connection to peer 1 closes, the protocol is told first; a request
+with `DialOptions::Dial` issued before the manager catches up is answered `AlreadyConnected` and
+fails at once; the state owes nothing and the request has its one terminal event. A second request
+whose dial is accepted is parked and `dialsOwed` says so until the dial fails. -/
+example :
+    let e := [Input.connectionEstablished 1 (fun _ => .error .closed), .connectionClosed 1,
+      .send 1 ⟨⟨3, 0⟩, none⟩ .dial (.error .alreadyConnected) (.error .noPeer)].foldl stepE (initE none)
+    let e' := stepE e (.send 1 ⟨⟨4, 1⟩, none⟩ .dial (.ok ()) (.error .noPeer))
+    e.dialsOwed = [] ∧ e.s.pendingDials = [] ∧ terminals e.s.log 0 = 1 ∧
+    e'.dialsOwed = [1] ∧ dialCount e'.s 1 = 1 ∧ terminals e'.s.log 1 = 0 ∧
+    (stepE e' (.dialFailure 1)).dialsOwed = [] ∧ terminals (stepE e' (.dialFailure 1)).s.log 1 = 1 := by decide
+
+/-- **Parked only while a dial is owed.** In every reachable state every peer with a queue in
+`pending_dials` is owed the conclusion of a dial by the transport manager, and the queues have
+distinct peers. -/
+theorem parked_only_while_dial_owed (m : Option Nat) (e : EnvState) (h : ReachE m e) :
+    (e.s.pendingDials.map Prod.fst).Nodup ∧ ∀ d ∈ e.s.pendingDials, d.1 ∈ e.dialsOwed :=
+  let i := reachE_dialOwed m e h
+  ⟨i.nodup, i.owed⟩
+
+/-- Non-vacuity: two requests parked for peer 1 after one accepted dial and one "dial in progress". -/
+example :
+    let e := [Input.send 1 ⟨⟨3, 0⟩, none⟩ .dial (.ok ()) (.error .noPeer),
+      .send 1 ⟨⟨4, 1⟩, none⟩ .dial (.ok ()) (.error .noPeer)].foldl stepE (initE none)
+    (e.s.pendingDials.map fun d => (d.1, d.2.map (·.rid))) = [(1, [0, 1])] ∧ e.dialsOwed = [1, 1] := by decide
+
+/-- **The answer of `dial` settles the request.** For a peer the protocol has not registered and
+`DialOptions::Dial`: if `dial` answers `Ok` the request is parked, no event is emitted and the
+manager owes the conclusion of a dial of that peer; if it answers any error the request fails at once
+with `Rejected(DialFailed(Some(error)))`, nothing is parked and nothing is owed. -/
+theorem dial_answer_settles (e : EnvState) (peer : Peer) (req : Request) (dialAns : Except DialErr Unit)
+    (openAns : Except SubErr Sid) (hp : alFind peer e.s.peers = none) :
+    match dialAns with
+    | .ok _ =>
+      (stepE e (.send peer req .dial dialAns openAns)).s.pendingDials =
+        pushDial peer ⟨peer, e.s.nextRid, req⟩ e.s.pendingDials ∧
+      (stepE e (.send peer req .dial dialAns openAns)).s.log = e.s.log ∧
+      (stepE e (.send peer req .dial dialAns openAns)).dialsOwed = e.dialsOwed ++ [peer]
+    | .error err =>
+      (stepE e (.send peer req .dial dialAns openAns)).s.pendingDials = e.s.pendingDials ∧
+      (stepE e (.send peer req .dial dialAns openAns)).s.log =
+        e.s.log ++ [.requestFailed peer e.s.nextRid (.rejected (.dialFailed (some err)))] ∧
+      (stepE e (.send peer req .dial dialAns openAns)).dialsOwed = e.dialsOwed :=
+  send_dial_answer e peer req dialAns openAns hp
+
+/-- Non-vacuity: every refusal of `dial` fails the request with that very error. -/
+example :
+    ([DialErr.noAddress, .alreadyConnected, .clogged, .triedToDialSelf, .taskClosed].map fun err =>
+      (stepE (initE none) (.send 1 ⟨⟨3, 0⟩, none⟩ .dial (.error err) (.error .noPeer))).s.log) =
+    [DialErr.noAddress, .alreadyConnected, .clogged, .triedToDialSelf, .taskClosed].map fun err =>
+      [Event.requestFailed 1 0 (.rejected (.dialFailed (some err)))] := by decide
 
 /-- **Responder sees each request once.** In every reachable state, for every request id `r`:
 * outbound: at most one substream was ever opened for `r` (`opened` records every successful
@@ -205,14 +270,137 @@ example :
     s.opened = [(0, ⟨1, 0, ⟨⟨3, 0⟩, none⟩⟩), (1, ⟨1, 1, ⟨⟨4, 1⟩, none⟩⟩)] ∧ s.sentOn = s.opened ∧
     s.wire = [(1, ⟨2, 9⟩), (0, ⟨6, 8⟩)] := by decide
 
+/-- **Every internal outcome becomes at most one user-visible terminal event.** Whatever way the
+per-request future ends (`FutOutcome`: write timed out / refused as too large / failed, cancelled,
+response timed out, response, read error, end of stream), `on_substream_event` hands the user exactly
+the events `terminalEvents` of the future's result if the request is still active with its
+registered peer and nothing otherwise; that list has at most one element, every element is a terminal
+event of that request, and it is empty exactly for the outcome `Canceled`. -/
+theorem outcome_translation_total (s : State) (f : Fut) (o : FutOutcome) :
+    ((onSubstreamEvent s f o.result).log =
+      match alFind f.peer s.peers with
+      | some pc => if f.rid ∈ pc.active then s.log ++ terminalEvents f.peer f.rid o.result else s.log
+      | none => s.log) ∧
+    (terminalEvents f.peer f.rid o.result).length ≤ 1 ∧
+    (∀ ev ∈ terminalEvents f.peer f.rid o.result, Event.terminalFor f.rid ev = true) ∧
+    (terminalEvents f.peer f.rid o.result = [] ↔ o = .canceled) :=
+  ⟨substreamEvent_log s f o.result, terminalEvents_length _ _ _, terminalEvents_terminal _ _ _,
+    (terminalEvents_nil_iff _ _ _).trans (result_canceled_iff o)⟩
+
+/-- Non-vacuity: the eight outcomes of an active request's future and what the user sees. -/
+example :
+    let s := [Input.connectionEstablished 1 (fun _ => .error .closed), .send 1 ⟨⟨3, 0⟩, none⟩ .reject (.ok ()) (.ok 0),
+      .outboundSubstream 1 0 none].foldl step (init none)
+    ([FutOutcome.sendTimeout, .sendTooLarge, .sendError .io, .canceled, .responseTimeout, .response ⟨2, 9⟩,
+      .readError .readFailure, .eof].map fun o => (onSubstreamEvent s ⟨1, 0, 0⟩ o.result).log) =
+    [[.requestFailed 1 0 .timeout], [.requestFailed 1 0 .tooLargePayload],
+     [.requestFailed 1 0 (.rejected (.substreamOpenError .io))], [], [.requestFailed 1 0 .timeout],
+     [.responseReceived 1 0 ⟨2, 9⟩], [.requestFailed 1 0 (.rejected (.substreamOpenError .readFailure))],
+     [.requestFailed 1 0 (.rejected .substreamClosed)]] := by decide
+
+/-- **Error-kind translation.** `impl From<SubstreamError> for RejectReason` is total: the four
+`NotConnected` shapes become `ConnectionClosed`, every other error is kept inside
+`SubstreamOpenError`; `on_substream_open_failure` reports `UnsupportedProtocol` exactly for a failed
+multistream-select negotiation and `Rejected(reason)` otherwise, and it reports exactly one failure
+for the request that waited for the substream. -/
+theorem error_kind_translation (e : SubErr) :
+    (RejectReason.ofSubErr e = if e.isNotConnected then .connectionClosed else .substreamOpenError e) ∧
+    (openFailureError e = if e = .unsupported then .unsupportedProtocol else .rejected (.ofSubErr e)) ∧
+    (∀ (s : State) (sid : Sid) (ctx : Ctx), alFind sid s.pendingOutbound = some ctx →
+      (onSubstreamOpenFailure s sid e).log = s.log ++ [.requestFailed ctx.peer ctx.rid (openFailureError e)]) :=
+  ⟨ofSubErr_eq e, openFailureError_eq e, fun s sid ctx h => substreamOpenFailure_log s sid e ctx h⟩
+
+/-- Non-vacuity: the translation of every modelled `SubstreamError` shape. -/
+example :
+    ([SubErr.notConnected, .yamuxNotConnected, .negotiationNotConnected, .msNotConnected, .io, .yamux,
+      .negotiation, .unsupported, .closed].map openFailureError) =
+    [.rejected .connectionClosed, .rejected .connectionClosed, .rejected .connectionClosed,
+     .rejected .connectionClosed, .rejected (.substreamOpenError .io), .rejected (.substreamOpenError .yamux),
+     .rejected (.substreamOpenError .negotiation), .unsupportedProtocol,
+     .rejected (.substreamOpenError .closed)] := by decide
+
+/-- **The handle's stream is a faithful image of the protocol's events.** Polling the handle over
+any sequence of internal events never panics (the `From` impl's `panic!` arm is unreachable) and
+yields exactly one user event per internal event, with the same peer, request id, payload, error and
+fallback protocol (`InnerEvent.toUser`). Hence, for the event log of any reachable state and any
+fallback protocols, the user receives at most one terminal event per request id — distinct internal
+terminal outcomes never produce two user events — and exactly as many as the log has. -/
+theorem handle_stream_faithful (h : Handle) (evs : List InnerEvent) (m : Option Nat) (s : State)
+    (hr : Reach m s) (fb : Event → Option Nat) (r : Rid) :
+    (h.pollAll evs).2 = evs.map (fun ev => some ev.toUser) ∧
+    userTerminals h s.log fb r = terminals s.log r ∧ userTerminals h s.log fb r ≤ 1 :=
+  ⟨pollAll_events h evs, userTerminals_eq h s.log fb r,
+    (userTerminals_eq h s.log fb r).symm ▸ (reach_inv m s hr).terminals_le_one r⟩
+
+/-- Non-vacuity: an inbound request negotiated with fallback 2, a response over fallback 7 and a
+failure pass through the handle unchanged; the inbound request is filed under its id. -/
+example :
+    let h : Handle := { capacity := 4 }
+    let r := h.pollAll [.requestReceived 1 (some 2) 5 ⟨4, 4⟩, .responseReceived 1 (some 7) 0 ⟨2, 9⟩,
+      .requestFailed 2 1 .timeout]
+    r.2 = [some (.requestReceived 1 (some 2) 5 ⟨4, 4⟩), some (.responseReceived 1 0 (some 7) ⟨2, 9⟩),
+      some (.requestFailed 2 1 .timeout)] ∧ r.1.pendingResponses = [5] := by decide
+
+/-- **Request ids and the command channel.** `try_send_request{,_with_fallback}` always takes the
+next id from the shared counter; the command is queued and the id returned iff the channel has room,
+otherwise the call fails (`ChannelClogged`) and the handle is unchanged. Of `k` requests handed over
+back to back exactly `min k (capacity − queued)` are accepted and the counter advances by `k`. -/
+theorem request_ids_and_channel (h : Handle) (n : Nat) (mk : Rid → Command) (k : Nat)
+    (hc : h.queue.length ≤ h.capacity) :
+    ((h.trySend n mk).2.1 = n + 1 ∧
+     (h.queue.length < h.capacity →
+       (h.trySend n mk).2.2 = some n ∧ (h.trySend n mk).1.queue = h.queue ++ [mk n]) ∧
+     (¬ h.queue.length < h.capacity → (h.trySend n mk).2.2 = none ∧ (h.trySend n mk).1 = h)) ∧
+    ((h.trySendMany n mk k).2.1 = n + k ∧
+     (h.trySendMany n mk k).2.2 = min k (h.capacity - h.queue.length)) :=
+  let a := trySend_spec h n mk
+  let b := trySendMany_spec h n mk k hc
+  ⟨⟨a.1, a.2.1, a.2.2.1⟩, b.1, b.2.1⟩
+
+/-- Non-vacuity: capacity 2, five requests: two accepted, three clogged, five ids used. -/
+example :
+    let h : Handle := { capacity := 2 }
+    let r := h.trySendMany 10 (fun rid => .sendRequest 1 rid ⟨1, 0⟩ .dial) 5
+    r.2 = (15, 2) ∧ r.1.queue = [.sendRequest 1 10 ⟨1, 0⟩ .dial, .sendRequest 1 11 ⟨1, 0⟩ .dial] := by decide
+
+/-- The command channel of the real handle has `DEFAULT_CHANNEL_SIZE` slots. -/
+example : Litep2pVerif.Consts.RR_COMMAND_CHANNEL_SIZE = 4096 := by decide
+
+/-- **An inbound request is answered at most once.** `send_response`, `send_response_with_feedback`
+and `reject_request` consume the pending response of the request: after any of them a further
+answer or rejection of the same request has no effect (and an answer to an id the user never received
+has none either). -/
+theorem answer_at_most_once (h : Handle) (rid : Rid) (hn : h.pendingResponses.Nodup) (ev : InnerEvent) :
+    (h.poll ev).1.pendingResponses.Nodup ∧
+    (rid ∉ h.pendingResponses → (h.sendResponse rid).2 = false ∧ (h.rejectRequest rid).2 = false) ∧
+    ((h.sendResponse rid).1.sendResponse rid).2 = false ∧
+    ((h.sendResponse rid).1.rejectRequest rid).2 = false ∧
+    ((h.rejectRequest rid).1.sendResponse rid).2 = false ∧
+    ((h.rejectRequest rid).1.rejectRequest rid).2 = false :=
+  ⟨nodup_poll h ev hn, fun hm => by simp [Handle.sendResponse, Handle.rejectRequest, hm], answer_once h rid hn⟩
+
+/-- Non-vacuity: the first answer takes effect, the second does not. -/
+example :
+    let h := (({ capacity := 4 } : Handle).poll (.requestReceived 1 none 5 ⟨4, 4⟩)).1
+    (h.sendResponse 5).2 = true ∧ ((h.sendResponse 5).1.sendResponse 5).2 = false ∧
+    (h.rejectRequest 5).2 = true ∧ ((h.rejectRequest 5).1.sendResponse 5).2 = false ∧
+    (h.sendResponse 6).2 = false := by decide
+
 #print axioms inbound_bound
 #print axioms cancel_effect
 #print axioms at_most_one_terminal
 #print axioms request_located
 #print axioms active_owned
 #print axioms exactly_one_at_quiescence
+#print axioms parked_only_while_dial_owed
+#print axioms dial_answer_settles
 #print axioms responder_sees_once
 #print axioms inbound_delivered
 #print axioms response_matches
+#print axioms outcome_translation_total
+#print axioms error_kind_translation
+#print axioms handle_stream_faithful
+#print axioms request_ids_and_channel
+#print axioms answer_at_most_once
 
 end Litep2pVerif.Props.C13
